@@ -20,6 +20,86 @@ CLAIMED = {
         technique="Coq proof (induction over the DFS loop with closure invariant; fuel bound) + model/implementation correspondence",
         design_ref="DESIGN.md 5/C18",
     ),
+    "C02": dict(
+        text="Theorems over the Gallina model of policy.evaluate and policyset.decide (every rule list, environment, relationship "
+             "oracle and tree of nested sets; no bounds): the rule loop followed by its finalisation equals a declarative "
+             "result (first applicable deny / last applicable permit / first applicable rule ...), from which deny-overrides, "
+             "permit-overrides, first-applicable, 'no applicable rule => deny', the algorithm argument and its case-insensitive "
+             "spelling are derived in terms of rules; the set evaluator equals the same laws over child results with the "
+             "deciding child's id; a (nested) set result names a rule only if that rule is applicable somewhere in the tree "
+             "(induction over nesting). The model's (decision, rule id, policy id) is therefore the only answer the property "
+             "allows: the correspondence run (extracted model vs rbacx.core.policy.evaluate/decide and policyset.decide on "
+             "every rule-outcome sequence up to length 4/5 x algorithms, every set of <= 3 children over 12 child policies, "
+             "random nested sets) reports a difference there as a violation, a difference only in reason/obligations as "
+             "broken correspondence.",
+        note="Trusted: Coq kernel; hand-written model tied to the code by differential execution only; extraction + ocamlopt; "
+             "Python harness. Theorems about rule outcomes assume each rule's outcome is defined (no Python exception, inside "
+             "the model's domain) — C06 discharges that for schema-valid policies.",
+        technique="Coq proof (loop invariants over the rule/child loops, declarative spec, structural induction over nested sets) + model/implementation correspondence",
+        design_ref="DESIGN.md 5/C02",
+    ),
+    "C04": dict(
+        text="Thirty-four theorems characterise the model of eval_condition/resolve operator by operator for all operand "
+             "values, literal or attribute reference, both modes, any nesting: ==/!= are Python equality of the resolved "
+             "values (a string never equals a number/boolean/null), ordering compares numbers only (bool, str, null, list, "
+             "object, datetime or an int beyond the double range is a type mismatch; exact integer order below 2^53), "
+             "contains/in/hasAll/hasAny/startsWith/endsWith as documented, before/after/between on microsecond instants "
+             "with between inclusive and strict mode accepting aware datetimes only, and/or/not left to right with "
+             "short-circuit (nothing to the right of a deciding operand is evaluated), attribute paths (missing step or step "
+             "into a plain value gives null), and a type mismatch makes exactly that rule not apply "
+             "(condition_type_mismatch) while the loop continues. The model's answer is thus the documented meaning; the "
+             "correspondence run compares eval_condition with the extracted model on the full operator x value x value x "
+             "mode cross product (~118k cells), time strings/epochs incl. range edges and rounding ties, logic trees, "
+             "paths, multi-key objects and rule-level skipping; any difference is a violation with the cell as replay.",
+        note="Trusted: Coq kernel; model tied to the code by differential execution only; extraction; harness. Outside the model "
+             "(counted as ood, skipped): ISO-8601 shapes beyond YYYY-MM-DD[(T| )hh:mm[:ss[.f{1,6}]]][Z|+-hh:mm], NaN nested in "
+             "container operands (CPython identity shortcut), datetime objects reached by a path step. datetime.fromtimestamp "
+             "rounding is modelled exactly (binary64 product, round-half-even), fromisoformat by a hand-written parser.",
+        technique="Coq proof (characterisation lemmas by computation and induction over operand lists) + exhaustive-in-the-small model/implementation correspondence",
+        design_ref="DESIGN.md 5/C04",
+    ),
+    "C05": dict(
+        text="Twenty-one theorems characterise the model of match_actions/match_resource clause by clause for all rule targets "
+             "and request resources: actions (listed or '*'), the target as conjunction of type/id/attribute clauses, each "
+             "clause in lax mode (string forms, one-of by string membership) and strict mode (a string equal to a listed "
+             "string; Python == for ids and attributes; one-of by ==), absent/'*' type, attrs vs legacy attributes, missing "
+             "request id/attribute; strict never matches \"1\" against 1 for id, attribute and one-of, nor a non-string "
+             "request type against a named type; every path decides applicability through match_resource in the mode of "
+             "the environment and the environment built by the engine carries exactly Guard's strict flag. Correspondence: "
+             "match_resource/match_actions vs the extracted model on the enumerated cross products of rule type x request "
+             "type, id x id and attribute x attribute over near-duplicate pools in lax/strict/legacy-flag mode, and end to "
+             "end through Guard(strict_types) as single policy (compiled path), set and nested set: allowed iff the model's "
+             "target predicate holds in that mode. Differences are violations.",
+        note="Trusted: Coq kernel; model tied to the code by differential execution only; extraction; harness. str() of containers "
+             "holding non-printable/non-ASCII strings is outside the model (ood).",
+        technique="Coq proof (clause characterisations) + exhaustive cross-product correspondence, direct and through the engine",
+        design_ref="DESIGN.md 5/C05",
+    ),
+    "C20": dict(
+        text="Theorems over the Gallina model of RbacxMiddleware.__call__/_send_json (every configuration, scope dict, env-builder "
+             "outcome, Decision with arbitrary values in allowed/effect/reason/rule_id/policy_id, failing sends, raising "
+             "downstream; no bounds): in enforce mode on an http scope with a delivering builder downstream is invoked iff "
+             "decision.allowed is truthy, exactly once with the same receive/send and the scope with the engine attached; a "
+             "denial is exactly start(403, content-type, content-length 23 [+ X-RBACX-* of the truthy fields iff add_headers]) "
+             "+ the literal body {\"detail\": \"Forbidden\"}, the body being the same bytes in every call whatsoever "
+             "(constancy is how 'never contains the ids' is stated, since an id may coincide with a piece of the fixed "
+             "document); builder/evaluation raising => downstream not invoked, nothing sent, exception propagates; every other "
+             "scope type / mode / missing builder => exactly one downstream call, nothing consulted or sent; the engine is "
+             "attached first and nothing else in the scope changes; converse safety over all calls; composition lemma against "
+             "an abstract engine. The model's answer is the only behaviour the property allows, so the correspondence run "
+             "(extracted model vs /repo/src driven with raw scope/receive/send, stub guard and the real Guard over 14 "
+             "policies/sets incl. obligation-failed permits; complete products over mode x add_headers x scope type x builder "
+             "x decision outcomes, then seeded hostile decisions) reports any difference in downstream calls, messages or "
+             "scope as a violation; exception-class/trace-only differences as broken correspondence.",
+        note="Partial with respect to the runtime: asyncio scheduling is modelled as sequential composition; receive/send/downstream "
+             "are opaque identities; scope values are JSON data. Lone surrogates in reason/rule id/policy id are outside the "
+             "modelled text domain (with add_headers on the code raises UnicodeEncodeError and sends nothing - "
+             "c20_403_unencodable; that stream is only checked for fail-closed). 'Iff the engine allowed' is proved against an "
+             "abstract engine and tied to the real Guard by the correspondence run. Trusted: Coq kernel, hand-written model, "
+             "extraction + ocamlopt (cross-checked per run against vm_compute), Python harness.",
+        technique="Coq proof (case analysis over the middleware's control flow with a trace-of-effects model) + model/implementation correspondence with exhaustive small products, real-Guard family, hostile-string fuzzing",
+        design_ref="DESIGN.md 5/C20",
+    ),
 }
 
 PENDING_REASON = ("check not built yet at this commit (work in progress; the design in DESIGN.md section 5 covers it and "
